@@ -121,6 +121,8 @@ def run(rep):
             grp.append(len(items))
             items.append(v)
         pairs.append(grp)
+    import lint
+    lint.report(rep, ("long_months", "short_months", "constant_pair"), "words")
     res = forms.replay(rep, items, "c19.gen")
     # a relabelling keeps the letter-case pattern: if English prints its month names capitalised, so does every language
     def month_cap(out):
